@@ -87,6 +87,19 @@ CHECKS = {
         note="Trusted: gcc -O0 -fwrapv as C semantics, vf/refsem.py with range guards. The "
              "fragment typing (pow() is a double, integer-only operators) is decided by the "
              "check. States are deduplicated only for reporting; every history is executed."),
+    "C09": dict(
+        category="exploration", design="DESIGN.md 4/C09",
+        technique="bounded-exhaustive enumeration of expression trees x all 72 analysis flag "
+                  "vectors x cached/uncached, compared with reference rules written on specs",
+        text="Every node shape with every leaf combination, every (parent, position, child) "
+             "nesting, three-level chains over the node types the flags distinguish, and sharing "
+             "families are analysed under all 72 flag vectors by the plain and the cached "
+             "dependency mapper and compared as sets with the rule of the statement implemented "
+             "on specs; the all-off result is cross-checked against the reference evaluator "
+             "(exactly these variables are needed); the node counter is compared with the number "
+             "of distinct sub-objects and both flop counters with an independent operation count.",
+        note="Trusted: the child table and the rules in vf/checks/c09.py (written from the "
+             "statement, not from the mappers), vf/refsem.py."),
 }
 
 NOT_BUILT_REASON = "check not built yet in this revision (planned, see DESIGN.md section 4)"
